@@ -86,6 +86,7 @@ def check(ctx):
     ctx.rule("R3", "the stream slots are single-assignment (first value wins, None ignored, otherwise close + XonshError) and are written privately only by the documented sites", floor=6)
     ctx.rule("R4", "a pending a>p / e>p sentinel is either resolved by the following pipe or reported; it cannot reach execution", floor=3)
     ctx.rule("R6", "where a pipe takes a stream slot the assignment goes through the public conflict-checking setter on every path (documented exemption: stdout under e>p)", floor=4)
+    ctx.rule("R7", "every stage whose output is captured, piped or redirected carries the capture-always marker, whatever per-command overlay it already has (nested commands of an alias stage write into the stage's stream, not the terminal)", floor=2)
     ctx.rule("R5", "sibling stage-kind handlers agree on the merge flags (subprocess.STDOUT on stderr, the `2` flag on stdout)", floor=3)
 
     tk = ctx.repo.module(TK)
@@ -445,6 +446,56 @@ def check(ctx):
     if n_paths < 2:
         raise AnalysisError(f"{SP}:cmds_to_specs: only {n_paths} feasible wiring path(s)")
 
+    _capture_marker(ctx)
+
+
+def _capture_marker(ctx):
+    from ..engine import dtable
+
+    sp = ctx.repo.module(SP)
+    fn = sp.func("_set_specs_capture_always")
+    st = f"{SP}:_set_specs_capture_always"
+    par = param_name(fn, 0, skip_self=False)
+    loops = [n for n in walk_local(fn) if isinstance(n, ast.For) and isinstance(n.iter, ast.Name) and n.iter.id == par and isinstance(n.target, ast.Name)]
+    if len(loops) != 1:
+        raise AnchorMissing(f"{st}: one loop over the stages handed in")
+    loop = loops[0]
+    v = loop.target.id
+    keys = {c.value for n in ast.walk(loop) for c in ast.walk(n) if isinstance(c, ast.Constant) and isinstance(c.value, str) and c.value.isupper() and "CAPTURE" in c.value}
+    if len(keys) != 1:
+        raise AnchorMissing(f"{st}: the marker key ({sorted(keys)})")
+    key = next(iter(keys))
+
+    def sets_marker(e):
+        if isinstance(e, ast.Assign):
+            for t in e.targets:
+                if isinstance(t, ast.Attribute) and t.attr == "env" and unparse(t.value) == v and isinstance(e.value, ast.Dict) and any(const_value(k, None) == key for k in e.value.keys if k is not None):
+                    return True
+                if isinstance(t, ast.Subscript) and const_value(t.slice, None) == key and unparse(t.value) == f"{v}.env":
+                    return True
+            return False
+        c = e.value if isinstance(e, ast.Expr) else e
+        if isinstance(c, ast.Call) and isinstance(c.func, ast.Attribute) and unparse(c.func.value) == f"{v}.env":
+            if c.func.attr in ("setdefault", "__setitem__") and c.args and const_value(c.args[0], None) == key:
+                return True
+            if c.func.attr == "update" and any(isinstance(a, ast.Dict) and any(const_value(k, None) == key for k in a.keys if k is not None) for a in c.args):
+                return True
+        return False
+
+    n = 0
+    for p_ in dtable.paths(loop.body, stores=True, loops="skip"):
+        if not dtable.feasible(p_) or p_.outcome in ("raise",):
+            continue
+        n += 1
+        ok = any(sets_marker(e) for e in p_.effects)
+        ctx.ob("R7", st, f"under [{'; '.join(p_.cond_texts())[:80]}] the stage's overlay receives `{key}`", ok, key=f"capture-marker|not-set|{'; '.join(p_.cond_texts())[:60]}", where=loc(loop), detail=None if ok else "effects: " + "; ".join(short(e, 60) for e in p_.effects))
+    if n < 1:
+        raise AnalysisError(f"{st}: no path through the loop body")
+    # ... and cmds_to_specs applies it to all stages when the output is captured or redirected, to all but the last otherwise
+    c2s = sp.func("cmds_to_specs")
+    calls = [c for c in calls_in(c2s) if call_name(c) == "_set_specs_capture_always"]
+    ctx.ob("R7", f"{SP}:cmds_to_specs", "the marker is applied while building the pipeline (unless $XONSH_CAPTURE_ALWAYS is on anyway)", len(calls) == 1, key="capture-marker|not-applied", where=loc(calls[0]) if calls else loc(c2s))
+
 
 META = {
     "technique": "static analysis: constant folding of the tokenizer/decoder tables, finite-language reading of the redirect regex syntax tree, decision-table extraction of _redirect_streams and the slot setters, CFG dominance for the sentinel lifecycle",
@@ -460,4 +511,5 @@ META = {
     "check; sibling stage-kind handlers are cross-checked for the merge flags. Actual byte delivery is not decided.",
     "note": "Decides the listed structural clauses, not the behaviour. Oracle table (origin/destination classes, "
     "modes) is written from the property statement and docs. Known finding: ProcProxy._pick_buf ignores the merge flags.",
+    "more": 'Also decided: every stage that is captured, piped or redirected receives the capture-always marker whatever per-command overlay it already has.',
 }
